@@ -61,7 +61,8 @@ theorem get_spec (modes : Mode → Prop) (m : Mode) (hm : modes m) (parse : Nat 
     have hmiss : ∀ (x : State × Option Nat × Lookup),
         x = (match parse f.content with
           | none => (s, none, Lookup.broken)
-          | some d => ({ s with cache := set s.cache h (some (key m f, d)) }, some d, Lookup.miss)) →
+          | some d => ({ s with cache := fun x => if x = h then some (key m f, d) else if (s.files x).isSome then s.cache x else none },
+                       some d, Lookup.miss)) →
         x.2.1 = parse f.content ∧ x.1.files = s.files ∧ Sound modes parse W x.1 := by
       intro x hx
       cases hp : parse f.content with
@@ -70,10 +71,12 @@ theorem get_spec (modes : Mode → Prop) (m : Mode) (hm : modes m) (parse : Nat 
         rw [hp] at hx; subst hx
         refine ⟨rfl, rfl, ?_, hs.files⟩
         intro h' e he
-        simp only [set] at he
+        simp only at he
         split at he
         · cases he; exact written_sound modes m parse W hk f hw d hp
-        · exact hs.entries h' e he
+        · split at he
+          · exact hs.entries h' e he
+          · cases he
     simp only [Option.bind_some]
     cases hc : s.cache h with
     | none => exact hmiss _ rfl
